@@ -11,7 +11,7 @@ from .. import gen, monitors
 PID = "C19"
 ANCHORS = ["applications/doc_fraud.py:FraudScores.__init__", "applications/doc_fraud.py:FraudScores.from_labels", "applications/doc_fraud.py:FraudScores.genuines",
            "applications/doc_fraud.py:FraudScores.frauds", "applications/doc_fraud.py:doc_to_binary_label", "applications/doc_fraud.py:binary_to_doc_label"]
-DECIDING = {"R-fraud": 20000}
+DECIDING = {"R-fraud": 16477}
 THOROUGH_EXTRA = ["W2"]
 RULE = (
     "R-fraud per case: every query of FraudScores(genuines, frauds, easy counts, score_class) - cm, six rates, six threshold_at_* x 3 methods, "
